@@ -58,14 +58,25 @@ Emit == pc = "c_start" => PrintT(ToJson(sc))
 HTTPs(k) == IF k = "bidi" THEN {2} ELSE {1, 2}
 
 (* C01: message sequences: sizes around the thresholds, zeros anywhere, both directions, compression on/off *)
-SzC01 == {0, 1, 511, 512, 513, 99, 100, 101}
+\* (value lengths; the encoded size is two bytes more up to 127, three above: 97, 98, 99 straddle the threshold of 100)
+SzC01 == {0, 1, 511, 512, 513, 97, 98, 99}
 GenC01Init ==
   \E p \in Protos, k \in Kinds, codec \in {"proto", "json"}, cs \in {<<"none", <<>>>>, <<"gzip", <<>>>>, <<"rev", <<"rev">>>>},
      hp \in {<<>>, <<"rev">>}, mins \in {<<0, 0>>, <<100, 100>>} :
     \E http \in HTTPs(k), rq \in ReqSeqs(k, SzC01), rs \in RespSeqs(k, SzC01) :
       /\ (cs[1] = "rev" => hp = <<"rev">>)          \* negotiation failures are C08's subject
       /\ InitWith(Mk(p, k, codec, http, cs, mins[1], hp, mins[2], <<>>, rq, <<>>, <<>>, rs, OK))
-GenC01Spec == GenC01Init /\ [][FALSE]_vars
+\* megabyte messages: around the 8 MiB cap above which a pooled buffer is not recycled, next to small ones
+SzBig == {3145728, 8388600, 8388616}
+GenC01BigInit ==
+  \E p \in Protos, k \in Kinds, cs \in {<<"none", <<>>>>, <<"gzip", <<>>>>}, b \in SzBig, pos \in {1, 2} :
+    \E http \in HTTPs(k) :
+      LET seq(base) == IF pos = 1 THEN <<M(base + 1, b), M(base + 2, 3)>> ELSE <<M(base + 1, 3), M(base + 2, b), M(base + 3, 0)>>
+          one(base) == <<M(base + 1, b)>> IN
+      InitWith(Mk(p, k, "proto", http, cs, 0, <<>>, 0, <<>>,
+                  IF k \in {"unary", "server"} THEN one(0) ELSE seq(0), <<>>, <<>>,
+                  IF k \in {"unary", "client"} THEN one(100) ELSE seq(100), OK))
+GenC01Spec == (GenC01Init \/ GenC01BigInit) /\ [][FALSE]_vars
 
 (* C02: errors: every code x message class x details x metadata x carrier (messages sent before) *)
 MsgClasses == {"empty", "ascii", "nonascii", "ctl", "pct", "crlf", "blanks", "long"}
